@@ -296,8 +296,18 @@ class sptenmat:
         subs = None
         if self.subs.size > 0:
             tshape = np.array(self.tshape)
-            rdims = tt_ind2sub(tshape[self.rdims], self.subs[:, 0])
-            cdims = tt_ind2sub(tshape[self.cdims], self.subs[:, 1])
+            nsubs = self.subs.shape[0]
+            # An empty row or column mode set contributes no subscripts
+            rdims = (
+                tt_ind2sub(tshape[self.rdims], self.subs[:, 0])
+                if self.rdims.size
+                else np.empty((nsubs, 0), dtype=int)
+            )
+            cdims = (
+                tt_ind2sub(tshape[self.cdims], self.subs[:, 1])
+                if self.cdims.size
+                else np.empty((nsubs, 0), dtype=int)
+            )
             subs = np.zeros(
                 (rdims.shape[0], rdims.shape[1] + cdims.shape[1]), dtype=int
             )
